@@ -245,6 +245,10 @@ def byte_offsets(ti, count):
 def seg_list(ti, count):
     """[(offset,len)] of (count, type) in order, merged"""
     e = ti.extent
+    if count <= 0 or not ti.segs:
+        return []
+    if len(ti.segs) == 1 and ti.segs[0][1] == e:
+        return [(ti.segs[0][0], e * count)]
     return _merge([(i * e + o, l) for i in range(count) for o, l in ti.segs])
 
 
@@ -444,6 +448,21 @@ def check_matching(sends, recvs, complete=True):
                                       e['id'], e['tag'], e['seq'])))
                         break
             consumed[m['id']] = r['rid']
+    # receive order: a message may not be given to a later-posted receive while an earlier-posted receive of the
+    # same process that it matches is still pending (never completed in this history)
+    for rank in sorted(per_rank):
+        rl = sorted(per_rank[rank], key=lambda r: r['seq'])
+        for i, r in enumerate(rl):
+            if r['got'] is None or r['got'] not in by_id:
+                continue
+            m = by_id[r['got']]
+            for e in rl[:i]:
+                if e['got'] is None and e.get('posted', True) and e['comm'] == m['comm'] and src_ok(e['src'], m['src']) \
+                        and tag_ok(e['tag'], m['tag']) and m['dst'] == rank:
+                    viol.append(('recv-order', 'message %s (rank %d -> %d, tag %d) was given to receive %s although the '
+                                 'earlier-posted receive %s (source spec %d, tag spec %d), which it matches, never completed' %
+                                 (m['id'], m['src'], m['dst'], m['tag'], r['rid'], e['rid'], e['src'], e['tag'])))
+                    break
     if complete:
         for m in sends:
             if m['id'] not in consumed:
